@@ -170,7 +170,7 @@ impl Prop for C02Prop {
         let q = tier == Tier::Quick;
         let mut v = wf::wf_streams(tier, 2);
         v.push(Stream::random("seeds", if q { 500 } else { 5000 }, 32));
-        v.push(Stream::random("lits", if q { 1500 } else { 20000 }, 300));
+        v.push(Stream::random("lits", if q { 6000 } else { 60000 }, 300));
         v.push(Stream::random("mlprog", if q { 400 } else { 6000 }, 700));
         v
     }
